@@ -262,6 +262,73 @@ def fateOfModel (rr rt childTip : Bool) (deg : Nat) (atRoot : Bool) : Fate :=
   else if !(rr || !atRoot) && deg == 2 then .rootBranch
   else .contracted
 
+/- ## the guards of `RemoveEdges`, decided SEMANTICALLY on probes (round 7b)
+
+   A probe is a state of the loop for one branch: the flags, `e.Right().Tip()`, the CURRENT number of
+   neighbours of `e.Left()`, whether `e.Left()` is the root, and `deg0`, the number of neighbours the root had
+   when `RemoveEdges` was entered (what `t.Root().Nneigh()` gives when it is read before the loop; the
+   extractor replaces a local defined before the loop by its defining expression).  `reachable` is the
+   invariant of the loop: without `removeRoot` a root with two neighbours keeps exactly two (both its
+   branches are skipped), a root with one neighbour keeps one (its branch is a tip branch), a root with more
+   only gains neighbours — so at the root "two neighbours now" is "two neighbours at the start". -/
+structure Probe where
+  rr : Bool
+  rt : Bool
+  childTip : Bool
+  deg : Nat
+  atRoot : Bool
+  deg0 : Nat
+  deriving Repr
+
+def Probe.reachable (p : Probe) : Bool :=
+  !p.atRoot || p.rr || ((p.deg0 == 2) == (p.deg == 2))
+
+def ρGuardP (p : Probe) : String → Option Rat
+  | "$e.Left().Nneigh()" => some ((p.deg : Int) : Rat)
+  | "len($e.Left().Neigh())" => some ((p.deg : Int) : Rat)
+  | "t.Root().Nneigh()" => some ((p.deg0 : Int) : Rat)
+  | "len(t.Root().Neigh())" => some ((p.deg0 : Int) : Rat)
+  | "0" => some 0
+  | "1" => some 1
+  | "2" => some 2
+  | "3" => some 3
+  | _ => none
+
+def βGuardP (p : Probe) : String → Option Bool
+  | "$0" => some p.rr
+  | "$1" => some p.rt
+  | "$e.Right().Tip()" => some p.childTip
+  | "$e.Left().Tip()" => some (p.deg == 1)
+  | "$e.Left() == t.Root()" => some p.atRoot
+  | "t.Root() == $e.Left()" => some p.atRoot
+  | "$e.Left() != t.Root()" => some (!p.atRoot)
+  | "t.Rooted()" => some (p.deg0 == 2)
+  | _ => none
+
+/-- the guards of the table run on a probe (conditions as written, no normal form needed) -/
+def fateOfGuardsP (gs : List Guard) (p : Probe) : Fate :=
+  match gs with
+  | [g0, g1] =>
+    match eval (ρGuardP p) (βGuardP p) g0.cond, eval (ρGuardP p) (βGuardP p) g1.cond with
+    | some true, _ =>
+      if g0.body == ["if $1 { $e.SetLength(0.0) }", "continue"] then .tip p.rt else .unknown
+    | some false, some true => if g1.body == ["continue"] then .rootBranch else .unknown
+    | some false, some false => .contracted
+    | _, _ => .unknown
+  | _ => .unknown
+
+def bools : List Bool := [false, true]
+
+/-- every combination of the flags, degrees 0..4 (the conditions compare degrees with 1 and 2 only),
+    restricted to the reachable ones -/
+def probes : List Probe :=
+  (bools.flatMap fun rr => bools.flatMap fun rt => bools.flatMap fun ct => bools.flatMap fun ar =>
+    (List.range 5).flatMap fun deg => (List.range 5).map fun deg0 => (⟨rr, rt, ct, deg, ar, deg0⟩ : Probe)).filter
+    Probe.reachable
+
+def guardsAgree (gs : List Guard) : Bool :=
+  probes.all fun p => fateOfGuardsP gs p == fateOfModel p.rr p.rt p.childTip p.deg p.atRoot
+
 /-- `resolveRecur`: the two `> 3` tests on a node with `n` neighbours -/
 def ρNeigh (n : Nat) : String → Option Rat
   | "len($0.Neigh())" => some ((n : Int) : Rat)
